@@ -123,7 +123,7 @@ def main():
         traceback.print_exc()
         print(f"CHECKER-CRASH property={prop} while generating obligations")
         return 3
-    timeout_ms = 20000 if a.tier == "quick" else 120000
+    timeout_ms = 10000 if a.tier == "quick" else 120000
     t_solve = time.time()
     try:
         S.discharge_all(timeout_ms=timeout_ms)
